@@ -12,6 +12,7 @@ import (
 	"encoding/json"
 	"fmt"
 	"net/netip"
+	"slices"
 	"sort"
 	"strings"
 	"time"
@@ -54,8 +55,9 @@ type nsNodeSpec struct {
 	udp      netip.AddrPort
 	notAfter time.Time
 	unsafe   []netip.Prefix
-	claims   int // nsSelfClaim: index of the node whose address is claimed
-	poses    int // nsAddrThief: index of the node it is mistaken for
+	claims   int          // nsSelfClaim: index of the node whose address is claimed
+	claimed  netip.Prefix // nsSelfClaim: which of that node's networks
+	poses    int          // nsAddrThief: index of the node it is mistaken for
 }
 
 type nsWorldOpts struct {
@@ -132,7 +134,9 @@ func nsGenWorld(rt *rapid.T, s *nsSim, o nsWorldOpts) *nsWorld {
 		sp := &nsNodeSpec{name: name, role: role, kind: kind, udp: nsUnderlay(i), claims: -1, poses: -1}
 		sp.versions = verChoices[rapid.IntRange(0, len(verChoices)-1).Draw(rt, name+".versions")]
 		sp.nets = []netip.Prefix{nsOverlayAddr(i)}
-		if o.v6 && sp.versions[0] == cert.Version2 && len(sp.versions) == 1 && rapid.IntRange(0, 2).Draw(rt, name+".v6") == 0 {
+		if o.v6 && slices.Contains(sp.versions, cert.Version2) && rapid.IntRange(0, 2).Draw(rt, name+".v6") == 0 {
+			// (a dual-certificate identity then has a v1 certificate for the IPv4 network only and a v2
+			// certificate for both: its own addresses are the union)
 			sp.nets = append(sp.nets, nsOverlayAddr6(i))
 		}
 		if o.multinet && sp.versions[0] == cert.Version2 && len(sp.versions) == 1 && rapid.IntRange(0, 2).Draw(rt, name+".multinet") == 0 {
@@ -163,7 +167,9 @@ func nsGenWorld(rt *rapid.T, s *nsSim, o nsWorldOpts) *nsWorld {
 		case nsSelfClaim:
 			// claims the address of an earlier host
 			sp.claims = firstHost + rapid.IntRange(0, h-1).Draw(rt, "claims")
-			victim := w.specs[sp.claims].nets[0]
+			vn := w.specs[sp.claims].nets
+			victim := vn[rapid.IntRange(0, len(vn)-1).Draw(rt, "claimsNet")]
+			sp.claimed = victim
 			if rapid.Bool().Draw(rt, "claimOnly") {
 				sp.nets = []netip.Prefix{victim}
 			} else {
@@ -197,6 +203,14 @@ func nsGenWorld(rt *rapid.T, s *nsSim, o nsWorldOpts) *nsWorld {
 				unsafeNets = []netip.Prefix{netip.PrefixFrom(v.Addr(), v.Addr().BitLen())}
 			} else {
 				unsafeNets = []netip.Prefix{v.Masked()}
+			}
+			// an unsafe network needs an assigned address of its family in the same certificate
+			sameFamily := false
+			for _, n := range sp.nets {
+				sameFamily = sameFamily || n.Addr().Is4() == v.Addr().Is4()
+			}
+			if !sameFamily || (v.Addr().Is6() && !slices.Contains(sp.versions, cert.Version2)) {
+				unsafeNets = nil
 			}
 			sp.unsafe = unsafeNets
 		}
@@ -247,7 +261,7 @@ func nsGenWorld(rt *rapid.T, s *nsSim, o nsWorldOpts) *nsWorld {
 				}
 			}
 			for _, n := range other.nets {
-				if other.kind == nsSelfClaim && other.claims == i && n == sp.nets[0] {
+				if other.kind == nsSelfClaim && other.claims == i && n == other.claimed {
 					// the victim does not map its own address
 					continue
 				}
@@ -298,7 +312,7 @@ func nsGenWorld(rt *rapid.T, s *nsSim, o nsWorldOpts) *nsWorld {
 			// the victim's own initiator-side refusal is what is exercised.
 			tbl := new(bart.Lite)
 			for _, p := range sp.nets {
-				if p != w.specs[sp.claims].nets[0] {
+				if p != sp.claimed {
 					tbl.Insert(netip.PrefixFrom(p.Addr(), p.Addr().BitLen()))
 				}
 			}
@@ -598,7 +612,7 @@ func (w *nsWorld) accepts(xi, pi int) bool {
 func (w *nsWorld) ownAddrs(i int) []netip.Addr {
 	var r []netip.Addr
 	for _, p := range w.specs[i].nets {
-		if w.specs[i].kind == nsSelfClaim && p == w.specs[w.specs[i].claims].nets[0] {
+		if w.specs[i].kind == nsSelfClaim && p == w.specs[i].claimed {
 			continue
 		}
 		r = append(r, p.Addr())
